@@ -632,6 +632,14 @@ def vec_median(ex, st, v):
     m = fresh(R, "median")
     st.ghost = dict(st.ghost)
     st.ghost[key] = (m, v.at)
+    # some element lies at or below it and some at or above it (a non-empty vector)
+    a, b = fresh(I, "a"), fresh(I, "b")
+    with binding(a, b):
+        ea, eb = v.at(a), v.at(b)
+    if not isinstance(ea, NF):
+        n = to_z3(v.n)
+        st.assume(z3.Implies(n > 0, z3.Exists([a, b], z3.And(0 <= a, a < n, 0 <= b, b < n,
+                                                               to_real(ea) <= m, m <= to_real(eb)))))
     return m
 
 
